@@ -46,17 +46,28 @@ Proof.
     + apply IH. constructor. exact H.
 Qed.
 
+Lemma okacc_split : forall acc, okacc acc ->
+  exists names k, acc = names ++ repeat CPar k /\ forall x, In x names -> is_cname x.
+Proof.
+  induction 1 as [k|n acc H (names & k & -> & Hn)].
+  - exists [], k. split; [reflexivity|intros x []].
+  - exists (CName n :: names), k. split; [reflexivity|].
+    intros x [<-|Hx]; [eexists; reflexivity|auto].
+Qed.
+
+Lemma rev_repeat {A} (a : A) k : rev (repeat a k) = repeat a k.
+Proof.
+  induction k as [|k IH]; [reflexivity|]. cbn. rewrite IH.
+  clear IH. induction k as [|k IH]; [reflexivity|]. cbn. rewrite IH. reflexivity.
+Qed.
+
 Lemma okacc_rev_names : forall acc c l, okacc acc -> rev acc = c :: l -> c <> CPar ->
   forall x, In x (rev acc) -> is_cname x.
 Proof.
-  intros acc c l H. induction H as [k|n acc H IH]; intros E Hc x Hx.
-  - destruct k as [|k]; [cbn in E; discriminate|].
-    exfalso. assert (G : In c (rev (repeat CPar (S k)))) by (rewrite E; left; reflexivity).
-    apply in_rev in G. apply repeat_spec in G. contradiction.
-  - cbn in *. apply in_app_or in Hx. destruct Hx as [Hx|[<-|[]]]; [|eexists; reflexivity].
-    destruct (rev acc) as [|c' l'] eqn:R.
-    + destruct Hx.
-    + cbn in E. inversion E; subst. eapply IH; eauto.
+  intros acc c l H E Hc x Hx. destruct (okacc_split acc H) as (names & k & -> & Hn).
+  rewrite rev_app_distr, rev_repeat in *. destruct k as [|k].
+  - cbn in Hx. apply in_rev in Hx. auto.
+  - cbn in E. inversion E. congruence.
 Qed.
 
 (* accepted parts: non-empty, names only (no '..', '.', '' component) *)
@@ -134,3 +145,590 @@ Proof.
   - rewrite N in Hpar. destruct (Hn _ Hpar) as [k K]. discriminate.
   - rewrite L. rewrite N in E. rewrite E, rev_involutive. reflexivity.
 Qed.
+
+(* ================================================================== *)
+(* 2. paths, prefixes, restriction of a filesystem                     *)
+(* ================================================================== *)
+Lemma path_eqb_eq : forall a b, path_eqb a b = true <-> a = b.
+Proof. intros. unfold path_eqb. apply list_eqb_spec. intros x y. apply Nat.eqb_eq. Qed.
+
+Lemma path_eqb_refl : forall a, path_eqb a a = true.
+Proof. intros. apply path_eqb_eq. reflexivity. Qed.
+
+Lemma is_prefix_refl : forall p, is_prefix p p = true.
+Proof. induction p as [|x p IH]; cbn; [reflexivity|]. rewrite Nat.eqb_refl, IH. reflexivity. Qed.
+
+Lemma is_prefix_app : forall p r, is_prefix p (p ++ r) = true.
+Proof. induction p as [|x p IH]; intros r; cbn; [reflexivity|]. rewrite Nat.eqb_refl, IH. reflexivity. Qed.
+
+Lemma is_prefix_spec : forall p q, is_prefix p q = true <-> exists r, q = p ++ r.
+Proof.
+  induction p as [|x p IH]; intros q; cbn.
+  - split; [eauto|reflexivity].
+  - destruct q as [|y q]; [split; [discriminate|intros [r E]; discriminate]|].
+    rewrite andb_true_iff, Nat.eqb_eq, IH. split.
+    + intros [-> [r ->]]. eauto.
+    + intros [r E]. inversion E. eauto.
+Qed.
+
+Lemma is_prefix_trans : forall a b c, is_prefix a b = true -> is_prefix b c = true -> is_prefix a c = true.
+Proof.
+  intros a b c H1 H2. apply is_prefix_spec in H1. apply is_prefix_spec in H2.
+  destruct H1 as [r ->]. destruct H2 as [r' ->]. rewrite <- app_assoc. apply is_prefix_app.
+Qed.
+
+Lemma is_prefix_nil_r : forall p, is_prefix p [] = true -> p = [].
+Proof. destruct p; cbn; [reflexivity|discriminate]. Qed.
+
+Definition restrict (s : fs) (D : path -> bool) : fs := filter (fun e => negb (D (fst e))) s.
+
+Definition ext_closed (D : path -> bool) : Prop :=
+  forall p q, D p = true -> is_prefix p q = true -> D q = true.
+
+Lemma rm_tree_restrict : forall s p, rm_tree s p = restrict s (is_prefix p).
+Proof. reflexivity. Qed.
+
+Lemma ext_closed_prefix : forall p, ext_closed (is_prefix p).
+Proof. intros p a b H1 H2. eapply is_prefix_trans; eauto. Qed.
+
+Lemma restrict_restrict : forall s D1 D2,
+  restrict (restrict s D1) D2 = restrict s (fun k => D1 k || D2 k).
+Proof.
+  intros s D1 D2. unfold restrict. induction s as [|e s IH]; [reflexivity|].
+  cbn. destruct (D1 (fst e)); cbn; [exact IH|]. destruct (D2 (fst e)); cbn; rewrite IH; reflexivity.
+Qed.
+
+Lemma ext_closed_or : forall D1 D2, ext_closed D1 -> ext_closed D2 -> ext_closed (fun k => D1 k || D2 k).
+Proof.
+  intros D1 D2 H1 H2 p q H Hp. apply orb_true_iff in H. apply orb_true_iff.
+  destruct H; [left; eapply H1|right; eapply H2]; eauto.
+Qed.
+
+Lemma assoc_restrict : forall s D p,
+  assoc path_eqb p (restrict s D) = if D p then None else assoc path_eqb p s.
+Proof.
+  intros s D p. unfold restrict. induction s as [|[k v] s IH]; cbn.
+  - destruct (D p); reflexivity.
+  - destruct (D k) eqn:Dk; cbn.
+    + rewrite IH. destruct (path_eqb p k) eqn:E; [|reflexivity].
+      apply path_eqb_eq in E. subst. rewrite Dk. reflexivity.
+    + destruct (path_eqb p k) eqn:E; [|exact IH].
+      apply path_eqb_eq in E. subst. rewrite Dk. reflexivity.
+Qed.
+
+Lemma lookup_restrict : forall s D p, D [] = false ->
+  lookup (restrict s D) p = if D p then None else lookup s p.
+Proof.
+  intros s D p H0. destruct p as [|x p]; cbn [lookup]; [rewrite H0; reflexivity|].
+  apply assoc_restrict.
+Qed.
+
+Lemma restrict_In : forall s D e, In e (restrict s D) <-> In e s /\ D (fst e) = false.
+Proof. intros. unfold restrict. rewrite filter_In, negb_true_iff. tauto. Qed.
+
+(* ================================================================== *)
+(* 3. symlink resolution under restriction                             *)
+(* ================================================================== *)
+Section Restrict.
+  Variable s : fs.
+  Variable D : path -> bool.
+  Hypothesis Dext : ext_closed D.
+  Hypothesis D0 : D [] = false.
+  Let s' := restrict s D.
+
+  (* inside the removed region nothing exists: the walk continues lexically *)
+  Lemma walk_in_D : forall f acc rest q,
+    D acc = true -> walk f s' acc rest = Some q -> D q = true.
+  Proof.
+    induction f as [|f IH]; intros acc rest q Ha H; cbn in H; [discriminate|].
+    destruct rest as [|c r]; [inversion H; subst; exact Ha|].
+    assert (Hc : D (acc ++ [c]) = true) by (eapply Dext; [exact Ha|apply is_prefix_app]).
+    unfold s' in H. rewrite lookup_restrict, Hc in H by exact D0. eapply IH; eauto.
+  Qed.
+
+  (* a walk in the restricted filesystem either is the same walk in the
+     original one and ends outside the removed region, or ends inside it *)
+  Lemma walk_restrict : forall f acc rest q,
+    D acc = false -> walk f s' acc rest = Some q ->
+    (walk f s acc rest = Some q /\ D q = false) \/ D q = true.
+  Proof.
+    induction f as [|f IH]; intros acc rest q Ha H; cbn in H; [discriminate|].
+    destruct rest as [|c r]; [inversion H; subst; left; split; [reflexivity|exact Ha]|].
+    unfold s' in H. rewrite lookup_restrict in H by exact D0.
+    destruct (D (acc ++ [c])) eqn:Hc.
+    - right. eapply walk_in_D; eauto.
+    - cbn [walk]. destruct (lookup s (acc ++ [c])) as [[| |t]|]; apply IH; assumption.
+  Qed.
+
+  Lemma realpath_restrict : forall p q, realpath s' p = Some q ->
+    (realpath s p = Some q /\ D q = false) \/ D q = true.
+  Proof. intros p q. unfold realpath. apply walk_restrict. exact D0. Qed.
+
+  Lemma phys_restrict : forall p P, phys s' p = Some P ->
+    phys s p = Some P \/ D P = true.
+  Proof.
+    intros p P. unfold phys. destruct (split_last p) as [[par c]|]; [|intros H; left; exact H].
+    destruct (realpath s' par) as [m|] eqn:R; [|discriminate]. intros H; inversion H; subst.
+    destruct (realpath_restrict _ _ R) as [[R' _]|Hd].
+    - left. rewrite R'. reflexivity.
+    - right. eapply Dext; [exact Hd|apply is_prefix_app].
+  Qed.
+
+  Lemma lstat_restrict : forall p k, lstat s' p = Some k ->
+    lstat s p = Some k /\ exists P, phys s' p = Some P /\ phys s p = Some P /\ D P = false.
+  Proof.
+    intros p k. unfold lstat. destruct (phys s' p) as [P|] eqn:E; [|discriminate].
+    unfold s'. rewrite lookup_restrict by exact D0. destruct (D P) eqn:DP; [discriminate|].
+    intros H. destruct (phys_restrict _ _ E) as [E'|Hd]; [|congruence].
+    rewrite E'. split; [exact H|]. exists P. auto.
+  Qed.
+
+  Lemma is_link_restrict : forall p, is_link s' p = true -> is_link s p = true.
+  Proof.
+    intros p. unfold is_link. destruct (lstat s' p) as [k|] eqn:E; [|discriminate].
+    destruct (lstat_restrict _ _ E) as [E' _]. rewrite E'. auto.
+  Qed.
+End Restrict.
+
+(* ================================================================== *)
+(* 4. where a path below the run dir physically lies                    *)
+(* ================================================================== *)
+Lemma walk_app_inv : forall s f acc a b q,
+  walk f s acc (a ++ b) = Some q ->
+  exists m f', walk f s acc a = Some m /\ walk f' s m b = Some q.
+Proof.
+  intros s. induction f as [|f IH]; intros acc a b q H; cbn in H; [discriminate|].
+  destruct a as [|c a'].
+  - exists acc, (S f). split; [reflexivity|exact H].
+  - cbn [app] in H. cbn [walk].
+    destruct (lookup s (acc ++ [c])) as [[| |t]|]; try (apply IH; exact H).
+    rewrite app_assoc in H. apply IH. exact H.
+Qed.
+
+Lemma walk_single : forall s f m c q, walk f s m [c] = Some q ->
+  (exists t, lookup s (m ++ [c]) = Some (KL t)) \/
+  ((forall t, lookup s (m ++ [c]) <> Some (KL t)) /\ q = m ++ [c]).
+Proof.
+  intros s f m c q H. destruct f as [|f]; [discriminate|]. cbn in H.
+  destruct (lookup s (m ++ [c])) as [[| |t]|] eqn:L; try (left; eauto; fail);
+    right; (split; [intros t; discriminate|]);
+    destruct f; cbn in H; try discriminate; inversion H; reflexivity.
+Qed.
+
+Lemma split_last_snoc : forall p c, split_last (p ++ [c]) = Some (p, c).
+Proof.
+  induction p as [|x p IH]; intros c; [reflexivity|].
+  cbn [app split_last]. rewrite IH. destruct (p ++ [c]) eqn:E; [destruct p; discriminate|reflexivity].
+Qed.
+
+Lemma proper_prefixes_snoc : forall rel c,
+  proper_prefixes (rel ++ [c]) = proper_prefixes rel ++ [rel].
+Proof.
+  induction rel as [|x rel IH]; intros c; [reflexivity|].
+  cbn. rewrite IH, map_app. reflexivity.
+Qed.
+
+Lemma realpath_app_inv : forall s a b q, realpath s (a ++ b) = Some q ->
+  exists m f', realpath s a = Some m /\ walk f' s m b = Some q.
+Proof. intros s a b q. unfold realpath. apply walk_app_inv. Qed.
+
+Lemma phys_snoc : forall s p c, phys s (p ++ [c]) =
+  match realpath s p with Some m => Some (m ++ [c]) | None => None end.
+Proof. intros. unfold phys. rewrite split_last_snoc. reflexivity. Qed.
+
+Lemma lstat_snoc : forall s p c m, realpath s p = Some m -> lstat s (p ++ [c]) = lookup s (m ++ [c]).
+Proof. intros s p c m H. unfold lstat. rewrite phys_snoc, H. reflexivity. Qed.
+
+Lemma split_last_some : forall p : path, p <> [] -> exists par c, p = par ++ [c].
+Proof.
+  intros p H. destruct (exists_last H) as (par & c & E). eauto.
+Qed.
+
+Lemma phys_nonroot : forall s p P, p <> [] -> phys s p = Some P -> P <> [].
+Proof.
+  intros s p P Hp H. destruct (split_last_some p Hp) as (par & c & ->).
+  rewrite phys_snoc in H. destruct (realpath s par); [|discriminate]. inversion H.
+  intros E. destruct p; discriminate.
+Qed.
+
+Section Region.
+  Variable s : fs.
+  Variable run : path.
+  Variable stds : list path.       (* absolute paths of the standard symlink dirs *)
+
+  (* every strict ancestor (the run dir included) that is a symlink is a standard one *)
+  Definition anc_ok (rel : path) : Prop :=
+    forall a, In a (proper_prefixes rel) -> is_link s (run ++ a) = true -> mem_path (run ++ a) stds = true.
+
+  (* the run dir's real location, or the real target of a standard symlink dir *)
+  Definition is_base (b : path) : Prop :=
+    realpath s run = Some b \/
+    exists sd, mem_path sd stds = true /\ is_link s sd = true /\ realpath s sd = Some b.
+
+  (* if all of rel's prefixes, rel included, are non-links or standard links,
+     run/rel really lies at or below a base *)
+  Lemma realpath_region : forall rel m,
+    anc_ok (rel ++ [0]) -> realpath s (run ++ rel) = Some m ->
+    exists b, is_base b /\ is_prefix b m = true.
+  Proof.
+    induction rel as [|c r IH] using rev_ind; intros m Hok H.
+    - rewrite app_nil_r in H. exists m. split; [left; exact H|apply is_prefix_refl].
+    - rewrite app_assoc in H.
+      destruct (realpath_app_inv _ _ _ _ H) as (m0 & f' & H1 & H2).
+      assert (Hok' : anc_ok (r ++ [0])).
+      { intros a Ha. apply Hok. rewrite proper_prefixes_snoc in *. apply in_or_app. left.
+        rewrite proper_prefixes_snoc. exact Ha. }
+      destruct (walk_single _ _ _ _ _ H2) as [[t L]|[_ ->]].
+      + (* run/r/c is a symlink: it must be a standard one, whose target is a base *)
+        assert (Lk : is_link s (run ++ r ++ [c]) = true).
+        { unfold is_link. rewrite app_assoc, (lstat_snoc _ _ _ _ H1), L. reflexivity. }
+        exists m. split; [|apply is_prefix_refl]. right. exists (run ++ r ++ [c]).
+        split; [|split; [exact Lk|]].
+        * apply Hok; [|exact Lk]. rewrite proper_prefixes_snoc. apply in_or_app. right. left. reflexivity.
+        * rewrite app_assoc. exact H.
+      + destruct (IH m0 Hok' H1) as (b & Hb & Hp). exists b. split; [exact Hb|].
+        eapply is_prefix_trans; [exact Hp|apply is_prefix_app].
+  Qed.
+
+  (* the directory entry run/rel (rel non-empty) lies strictly below a base *)
+  Lemma phys_region : forall rel c P,
+    anc_ok (rel ++ [c]) -> phys s (run ++ rel ++ [c]) = Some P ->
+    exists b, is_base b /\ is_prefix b P = true /\ P <> b.
+  Proof.
+    intros rel c P Hok H. rewrite app_assoc, phys_snoc in H.
+    destruct (realpath s (run ++ rel)) as [m|] eqn:R; [|discriminate]. inversion H; subst.
+    assert (Hok' : anc_ok (rel ++ [0])).
+    { intros a Ha. apply Hok. rewrite proper_prefixes_snoc in *. exact Ha. }
+    destruct (realpath_region rel m Hok' R) as (b & Hb & Hp). exists b. split; [exact Hb|]. split.
+    - eapply is_prefix_trans; [exact Hp|apply is_prefix_app].
+    - intros E. apply is_prefix_spec in Hp. destruct Hp as [r ->].
+      apply (f_equal (@length name)) in E. rewrite !app_length in E. cbn [length] in E. lia.
+  Qed.
+End Region.
+
+(* ================================================================== *)
+(* 5. glob_in_run_dir keeps only paths without a non-standard symlink   *)
+(*    among their strict ancestors                                      *)
+(* ================================================================== *)
+Lemma scan_keep : forall s run stds matches results p parent ancs excl excl',
+  scan_ancestors s run stds matches results p parent ancs excl = (Keep, excl') ->
+  forall a, In a ancs -> is_link s (run ++ a) = true -> mem_path (run ++ a) stds = true.
+Proof.
+  intros s run stds matches results p parent. induction ancs as [|a0 rest IH]; intros excl excl' H a Ha Hl.
+  - destruct Ha.
+  - cbn in H.
+    destruct (mem_path (run ++ a0) excl); [discriminate|].
+    destruct (is_link s (run ++ a0) && negb (mem_path (run ++ a0) stds)) eqn:E1; [discriminate|].
+    destruct (is_nil_path stds && mem_path (run ++ a0) results); [discriminate|].
+    destruct (path_eqb (run ++ a0) parent && (mem_path (run ++ a0) matches && negb (mem_path p stds)));
+      [discriminate|].
+    destruct Ha as [<-|Ha]; [|eapply IH; eauto].
+    rewrite Hl in E1. cbn in E1. apply negb_false_iff in E1. exact E1.
+Qed.
+
+Lemma skipn_app_exact {A} (a b : list A) : skipn (length a) (a ++ b) = b.
+Proof. induction a; cbn; auto. Qed.
+
+Definition lexical (run p : path) : Prop := exists rel, p = run ++ rel.
+
+Lemma glob_filter_ok : forall s run stds matches todo results excl p,
+  (forall x, In x todo -> lexical run x) ->
+  In p (glob_filter s run stds matches todo results excl) ->
+  In p results \/ (In p todo /\ exists rel, p = run ++ rel /\ anc_ok s run stds rel).
+Proof.
+  intros s run stds matches. induction todo as [|x rest IH]; intros results excl p Hlex H; cbn in H.
+  - left. exact H.
+  - destruct (scan_ancestors s run stds matches results x
+                (match split_last x with Some (par, _) => par | None => [] end)
+                (proper_prefixes (strip_prefix_len run x)) excl) as [[|] excl'] eqn:E.
+    + destruct (IH _ _ _ (fun y Hy => Hlex y (or_intror Hy)) H) as [Hr|[Hr Hx]].
+      * apply in_app_or in Hr. destruct Hr as [Hr|[<-|[]]]; [left; exact Hr|].
+        right. split; [left; reflexivity|].
+        destruct (Hlex x (or_introl eq_refl)) as [rel ->]. exists rel. split; [reflexivity|].
+        unfold strip_prefix_len in E. rewrite skipn_app_exact in E.
+        intros a Ha Hl. eapply scan_keep; eauto.
+      * right. split; [right; exact Hr|exact Hx].
+    + destruct (IH _ _ _ (fun y Hy => Hlex y (or_intror Hy)) H) as [Hr|[Hr Hx]].
+      * left. exact Hr.
+      * right. split; [right; exact Hr|exact Hx].
+Qed.
+
+Lemma glob_in_run_dir_ok : forall s run stds raw p,
+  (forall x, In x raw -> lexical run x) ->
+  In p (glob_in_run_dir s run stds raw) ->
+  In p raw /\ exists rel, p = run ++ rel /\ anc_ok s run stds rel.
+Proof.
+  intros s run stds raw p Hlex H.
+  assert (G : In p (glob_filter s run stds raw raw [] [])).
+  { unfold glob_in_run_dir in H. destruct raw as [|m [|m' r]]; try exact H.
+    destruct (lexists s m); [exact H|destruct H]. }
+  destruct (glob_filter_ok _ _ _ _ _ _ _ _ Hlex G) as [[]|H']. exact H'.
+Qed.
+
+(* ================================================================== *)
+(* 6. containment                                                       *)
+(* ================================================================== *)
+Lemma anc_ok_restrict : forall s D run stds rel, ext_closed D -> D [] = false ->
+  anc_ok s run stds rel -> anc_ok (restrict s D) run stds rel.
+Proof.
+  intros s D run stds rel He H0 Hok a Ha Hl. apply Hok; [exact Ha|].
+  eapply is_link_restrict; eauto.
+Qed.
+
+Arguments realpath : simpl never.
+Arguments phys : simpl never.
+Arguments lstat : simpl never.
+Arguments stat : simpl never.
+Arguments is_link : simpl never.
+Arguments is_dir : simpl never.
+Arguments is_file : simpl never.
+Arguments exists_ : simpl never.
+Arguments lexists : simpl never.
+Arguments rm_dir_or_file : simpl never.
+Arguments rm_dir_and_target : simpl never.
+
+Section Contain.
+  Variable s0 : fs.          (* the filesystem when clean() starts *)
+  Variable run : path.       (* logical path of the run dir *)
+  Variable stds : list path. (* absolute paths of the standard symlink dirs found by get_symlink_dirs *)
+  Hypothesis run_nonroot : run <> [].
+  (* no standard symlink dir resolves to the filesystem root (get_symlink_dirs
+     checks that the target ends with cylc-run/<id>/<dir>) *)
+  Hypothesis std_targets_nonroot : forall sd, mem_path sd stds = true -> realpath s0 sd <> Some [].
+  Hypothesis run_target_nonroot : realpath s0 run <> Some [].
+
+  (* the region the property allows clean to delete in: at or below the run
+     dir entry, its real location, or the real target of a standard symlink dir *)
+  Definition inside0 (q : path) : Prop :=
+    exists b, (realpath s0 run = Some b \/ phys s0 run = Some b \/
+               exists sd, mem_path sd stds = true /\ is_link s0 sd = true /\ realpath s0 sd = Some b)
+              /\ is_prefix b q = true.
+
+  (* intermediate states: s0 minus an extension-closed set of paths, all inside *)
+  Definition Inv (s : fs) : Prop :=
+    exists D, s = restrict s0 D /\ ext_closed D /\ D [] = false /\
+              forall e, In e s0 -> D (fst e) = true -> inside0 (fst e).
+
+  Lemma Inv_init : Inv s0.
+  Proof.
+    exists (fun _ => false). repeat split; try discriminate; try (intros p q H; discriminate).
+    unfold restrict. clear. induction s0 as [|e l IH]; cbn; [reflexivity|]. f_equal. exact IH.
+  Qed.
+
+  Lemma Inv_rm_tree : forall s P, Inv s -> P <> [] ->
+    (forall e, In e s -> is_prefix P (fst e) = true -> inside0 (fst e)) -> Inv (rm_tree s P).
+  Proof.
+    intros s P (D & -> & He & H0 & Hin) HP Hall.
+    exists (fun k => D k || is_prefix P k). repeat split.
+    - rewrite rm_tree_restrict. apply restrict_restrict.
+    - apply ext_closed_or; [exact He|apply ext_closed_prefix].
+    - rewrite H0. destruct P; [congruence|reflexivity].
+    - intros e He0 Hd. destruct (D (fst e)) eqn:Dd; [apply Hin; assumption|].
+      cbn in Hd. apply Hall; [|exact Hd]. apply restrict_In. auto.
+  Qed.
+
+  Lemma Inv_subset : forall s e, Inv s -> In e s -> In e s0.
+  Proof. intros s e (D & -> & _) H. apply restrict_In in H. tauto. Qed.
+
+  (* entries still present below a root that hangs off a base of the CURRENT
+     state are inside the region defined on the INITIAL state *)
+  Lemma base_inside : forall s b P, Inv s -> is_base s run stds b -> is_prefix b P = true ->
+    forall e, In e s -> is_prefix P (fst e) = true -> inside0 (fst e).
+  Proof.
+    intros s b P (D & -> & He & H0 & Hin) Hb Hp e Hes HPe.
+    apply restrict_In in Hes. destruct Hes as [Hes Hd].
+    assert (Hbe : is_prefix b (fst e) = true) by (eapply is_prefix_trans; eauto).
+    assert (Db : D b = false).
+    { destruct (D b) eqn:Db; [|reflexivity]. rewrite (He _ _ Db Hbe) in Hd. discriminate. }
+    destruct Hb as [Hr|(sd & Hm & Hl & Hr)].
+    - destruct (realpath_restrict s0 D He H0 _ _ Hr) as [[Hr' _]|Hd']; [|congruence].
+      exists b. split; [left; exact Hr'|exact Hbe].
+    - destruct (realpath_restrict s0 D He H0 _ _ Hr) as [[Hr' _]|Hd']; [|congruence].
+      exists b. split; [|exact Hbe]. right. right. exists sd. split; [exact Hm|]. split; [|exact Hr'].
+      eapply is_link_restrict; eauto.
+  Qed.
+
+  Lemma base_nonroot : forall s b, Inv s -> is_base s run stds b -> b <> [].
+  Proof.
+    intros s b (D & -> & He & H0 & Hin) Hb E. subst b.
+    destruct Hb as [Hr|(sd & Hm & Hl & Hr)];
+      (destruct (realpath_restrict s0 D He H0 _ _ Hr) as [[Hr' _]|Hd']; [|congruence]).
+    - apply run_target_nonroot. exact Hr'.
+    - apply (std_targets_nonroot sd Hm). exact Hr'.
+  Qed.
+
+  (* the run dir entry itself *)
+  Lemma phys_run_inside : forall s P, Inv s -> phys s run = Some P ->
+    P <> [] /\ forall e, In e s -> is_prefix P (fst e) = true -> inside0 (fst e).
+  Proof.
+    intros s P HI HP. split.
+    - eapply phys_nonroot; eauto.
+    - destruct HI as (D & -> & He & H0 & Hin). intros e Hes HPe.
+      apply restrict_In in Hes. destruct Hes as [Hes Hd].
+      destruct (phys_restrict s0 D He H0 _ _ HP) as [HP'|Hd'].
+      + exists P. split; [right; left; exact HP'|exact HPe].
+      + rewrite (He _ _ Hd' HPe) in Hd. discriminate.
+  Qed.
+
+  (* one deletion root that is the directory entry of run/rel *)
+  Lemma phys_rel_inside : forall s rel P, Inv s -> anc_ok s run stds rel -> phys s (run ++ rel) = Some P ->
+    P <> [] /\ forall e, In e s -> is_prefix P (fst e) = true -> inside0 (fst e).
+  Proof.
+    intros s rel P HI Hok HP. destruct rel as [|c r] using rev_ind.
+    - rewrite app_nil_r in HP. apply phys_run_inside; assumption.
+    - clear IHr. destruct (phys_region s run stds r c P Hok HP) as (b & Hb & Hp & Hne). split.
+      + intros ->. apply is_prefix_nil_r in Hp. congruence.
+      + eapply base_inside; eauto.
+  Qed.
+
+  Lemma Inv_rm_trees_opt : forall s o, Inv s ->
+    (forall P, o = Some P -> P <> [] /\ forall e, In e s -> is_prefix P (fst e) = true -> inside0 (fst e)) ->
+    Inv (rm_trees s (opt_list o)).
+  Proof.
+    intros s [P|] HI H; cbn; [|exact HI]. destruct (H P eq_refl). apply Inv_rm_tree; assumption.
+  Qed.
+
+  (* remove_dir_or_file on run/rel *)
+  Lemma rm_dir_or_file_Inv : forall s rel del, Inv s -> anc_ok s run stds rel ->
+    rm_dir_or_file s (run ++ rel) = ROk del -> Inv (rm_trees s del).
+  Proof.
+    intros s rel del HI Hok H. unfold rm_dir_or_file in H.
+    assert (G : Inv (rm_trees s (opt_list (phys s (run ++ rel))))).
+    { apply Inv_rm_trees_opt; [exact HI|]. intros P HP. eapply phys_rel_inside; eauto. }
+    destruct (is_link s (run ++ rel)); [inversion H; subst; exact G|].
+    destruct (is_file s (run ++ rel)); [inversion H; subst; exact G|].
+    destruct (is_dir s (run ++ rel)); [inversion H; subst; exact G|discriminate].
+  Qed.
+
+  (* monotonicity of the ancestor condition along deletions *)
+  Lemma anc_ok_rm_tree : forall s P rel, P <> [] -> anc_ok s run stds rel -> anc_ok (rm_tree s P) run stds rel.
+  Proof.
+    intros s P rel HP Hok. rewrite rm_tree_restrict. apply anc_ok_restrict; [apply ext_closed_prefix| |exact Hok].
+    destruct P; [congruence|reflexivity].
+  Qed.
+
+  (* ---- deletion roots ---- *)
+  Definition roots_ok (s : fs) (del : list path) : Prop :=
+    forall P, In P del -> P <> [] /\ forall e, In e s -> is_prefix P (fst e) = true -> inside0 (fst e).
+
+  Lemma rm_tree_subset : forall s P e, In e (rm_tree s P) -> In e s.
+  Proof. intros s P e H. unfold rm_tree in H. apply filter_In in H. tauto. Qed.
+
+  Lemma roots_ok_Inv : forall del s, Inv s -> roots_ok s del -> Inv (rm_trees s del).
+  Proof.
+    induction del as [|P del IH]; intros s HI Hr; [exact HI|]. cbn. apply IH.
+    - destruct (Hr P (or_introl eq_refl)). apply Inv_rm_tree; assumption.
+    - intros Q HQ. destruct (Hr Q (or_intror HQ)) as [H1 H2]. split; [exact H1|].
+      intros e He. apply H2. eapply rm_tree_subset; eauto.
+  Qed.
+
+  Lemma roots_ok_anc : forall del s rel, roots_ok s del ->
+    anc_ok s run stds rel -> anc_ok (rm_trees s del) run stds rel.
+  Proof.
+    induction del as [|P del IH]; intros s rel Hr Hok; [exact Hok|]. cbn. apply IH.
+    - intros Q HQ. destruct (Hr Q (or_intror HQ)) as [H1 H2]. split; [exact H1|].
+      intros e He. apply H2. eapply rm_tree_subset; eauto.
+    - apply anc_ok_rm_tree; [|exact Hok]. destruct (Hr P (or_introl eq_refl)). assumption.
+  Qed.
+
+  Lemma roots_ok_opt : forall s o,
+    (forall P, o = Some P -> P <> [] /\ forall e, In e s -> is_prefix P (fst e) = true -> inside0 (fst e)) ->
+    roots_ok s (opt_list o).
+  Proof. intros s [P|] H Q HQ; [destruct HQ as [<-|[]]; auto|destruct HQ]. Qed.
+
+  Lemma roots_ok_app : forall s a b, roots_ok s a -> roots_ok s b -> roots_ok s (a ++ b).
+  Proof. intros s a b Ha Hb P HP. apply in_app_or in HP. destruct HP; auto. Qed.
+
+  Lemma rm_dir_or_file_roots : forall s rel del, Inv s -> anc_ok s run stds rel ->
+    rm_dir_or_file s (run ++ rel) = ROk del -> roots_ok s del.
+  Proof.
+    intros s rel del HI Hok H. unfold rm_dir_or_file in H.
+    assert (G : roots_ok s (opt_list (phys s (run ++ rel)))).
+    { apply roots_ok_opt. intros P HP. eapply phys_rel_inside; eauto. }
+    destruct (is_link s (run ++ rel)); [inversion H; subst; exact G|].
+    destruct (is_file s (run ++ rel)); [inversion H; subst; exact G|].
+    destruct (is_dir s (run ++ rel)); [inversion H; subst; exact G|discriminate].
+  Qed.
+
+  Lemma rm_dir_and_target_cases : forall s p del, rm_dir_and_target s p = ROk del ->
+    (is_link s p = true /\ (del = opt_list (realpath s p) ++ opt_list (phys s p) \/ del = opt_list (phys s p)))
+    \/ (is_link s p = false /\ del = opt_list (phys s p)).
+  Proof.
+    intros s p del. unfold rm_dir_and_target.
+    destruct (exists_ s p), (is_dir s p), (is_link s p); cbn [andb negb]; intros H;
+      try discriminate; inversion H; auto.
+  Qed.
+
+  (* remove_dir_and_target on the run dir or on a standard symlink dir *)
+  Lemma rm_dir_and_target_roots : forall s d del, Inv s -> anc_ok s run stds d ->
+    (d = [] \/ mem_path (run ++ d) stds = true) ->
+    rm_dir_and_target s (run ++ d) = ROk del -> roots_ok s del.
+  Proof.
+    intros s d del HI Hok Hd H.
+    assert (G : roots_ok s (opt_list (phys s (run ++ d)))).
+    { apply roots_ok_opt. intros P HP. eapply phys_rel_inside; eauto. }
+    destruct (rm_dir_and_target_cases _ _ _ H) as [[L [->| ->]]|[_ ->]]; try exact G.
+    apply roots_ok_app; [|exact G].
+    apply roots_ok_opt. intros T HT.
+    assert (B : is_base s run stds T).
+    { destruct Hd as [E|Hm]; [left; rewrite E, app_nil_r in HT; exact HT|].
+      right. exists (run ++ d). auto. }
+    split; [exact (base_nonroot s T HI B)|]. exact (base_inside s T T HI B (is_prefix_refl T)).
+  Qed.
+
+  (* ---- the loops ---- *)
+  Definition paths_ok (s : fs) (ps : list path) : Prop :=
+    forall p, In p ps -> exists rel, p = run ++ rel /\ anc_ok s run stds rel.
+
+  Lemma paths_ok_rm : forall s del ps, roots_ok s del -> paths_ok s ps -> paths_ok (rm_trees s del) ps.
+  Proof.
+    intros s del ps Hr Hp p Hin. destruct (Hp p Hin) as (rel & -> & Hok). exists rel. split; [reflexivity|].
+    apply roots_ok_anc; assumption.
+  Qed.
+
+  (* what a loop preserves: the invariant, and the ancestor condition of any path *)
+  Definition Post (s s' : fs) : Prop :=
+    Inv s' /\ forall rel, anc_ok s run stds rel -> anc_ok s' run stds rel.
+
+  Lemma Post_refl : forall s, Inv s -> Post s s.
+  Proof. intros s H. split; auto. Qed.
+
+  Lemma Post_trans : forall a b c, Post a b -> Post b c -> Post a c.
+  Proof. intros a b c [_ H1] [H2 H3]. split; auto. Qed.
+
+  Lemma Post_roots : forall s del, Inv s -> roots_ok s del -> Post s (rm_trees s del).
+  Proof. intros s del HI Hr. split; [apply roots_ok_Inv; assumption|]. intros rel. apply roots_ok_anc. exact Hr. Qed.
+
+  Lemma paths_ok_Post : forall s s' ps, Post s s' -> paths_ok s ps -> paths_ok s' ps.
+  Proof.
+    intros s s' ps [_ H] Hp p Hin. destruct (Hp p Hin) as (rel & -> & Hok). eauto.
+  Qed.
+
+  Lemma rm_each_Post : forall ps s s' e, Inv s -> paths_ok s ps -> rm_each s ps = (s', e) -> Post s s'.
+  Proof.
+    induction ps as [|p ps IH]; intros s s' e HI Hp H; cbn [rm_each] in H.
+    - inversion H; subst. apply Post_refl. exact HI.
+    - destruct (Hp p (or_introl eq_refl)) as (rel & -> & Hok).
+      destruct (rm_dir_or_file s (run ++ rel)) as [del|er] eqn:E.
+      + pose proof (rm_dir_or_file_roots _ _ _ HI Hok E) as Hr.
+        pose proof (Post_roots _ _ HI Hr) as P1.
+        eapply Post_trans; [exact P1|]. eapply IH; [apply P1| |exact H].
+        eapply paths_ok_Post; [exact P1|]. intros q Hq. apply Hp. right. exact Hq.
+      + inversion H; subst. apply Post_refl. exact HI.
+  Qed.
+
+  Lemma rm_targets_Post : forall ds s s' e, Inv s ->
+    (forall d, In d ds -> anc_ok s run stds d /\ (d = [] \/ mem_path (run ++ d) stds = true)) ->
+    rm_targets s (map (fun d => run ++ d) ds) = (s', e) -> Post s s'.
+  Proof.
+    induction ds as [|d ds IH]; intros s s' e HI Hd H; cbn [rm_targets map] in H.
+    - inversion H; subst. apply Post_refl. exact HI.
+    - destruct (Hd d (or_introl eq_refl)) as [Hok Hm].
+      destruct (rm_dir_and_target s (run ++ d)) as [del|er] eqn:E.
+      + pose proof (rm_dir_and_target_roots _ _ _ HI Hok Hm E) as Hr.
+        pose proof (Post_roots _ _ HI Hr) as P1.
+        eapply Post_trans; [exact P1|]. eapply IH; [apply P1| |exact H].
+        intros d' Hd'. destruct (Hd d' (or_intror Hd')) as [A B]. split; [apply P1; exact A|exact B].
+      + inversion H; subst. apply Post_refl. exact HI.
+  Qed.
+End Contain.
